@@ -6,24 +6,80 @@
   lexer keeps these incrementally (`Pos.step`, `Pos.adv`); the theorems relate
   the two.
 -/
-import Pongo.Lemmas.Lex
+import Pongo.Lemmas.LexPos
 import Pongo.Gen.LexTables
 
 namespace Pongo.C16
+open Pongo
 
-/-- number of bytes after the last newline of `s` -/
-def sinceNewline (s : Bytes) : Nat := (s.reverse.takeWhile (· ≠ 0x0a)).length
+-- `sinceNewline`, `lineCol` (line = 1 + newlines before, column = 1 + bytes since the last newline),
+-- `posOf` and `TokOK` are defined in `Lemmas/LexPos.lean`
 
-/-- closed-form position of the byte that follows the prefix `pre` -/
-def lineCol (pre : Bytes) : Nat × Nat := (1 + pre.count 0x0a, 1 + sinceNewline pre)
+/-! ### every token, every lexer error, every input -/
 
-theorem sinceNewline_snoc (s : Bytes) (c : UInt8) :
-    sinceNewline (s ++ [c]) = if c = 0x0a then 0 else sinceNewline s + 1 := by
-  unfold sinceNewline
-  simp only [List.reverse_append, List.reverse_cons, List.reverse_nil, List.nil_append, List.cons_append]
-  by_cases h : c = 0x0a
-  · simp [h, List.takeWhile]
-  · simp [h, List.takeWhile]
+theorem gen_tag_tables_ok : TagTablesOK Gen.lexTables = true := by decide
+theorem gen_markers_ok : MarkersOK Gen.lexTables = true := by decide
+
+/-- **Every token the lexer produces records the line and column at which its text starts**, for
+    every source (any bytes, any length, any mix of text, tags, strings with escapes, comments,
+    verbatim blocks): `off` is the offset of the token's first byte and (line, col) is the closed
+    form for that offset. -/
+theorem token_positions_exact (s : Bytes) (toks : List Tok) (h : lex Gen.lexTables s = .ok toks) :
+    ∀ t ∈ toks, t.off ≤ s.length ∧ (t.line, t.col) = lineCol (s.take t.off) := by
+  have := lex_pos Gen.lexTables gen_tag_tables_ok gen_markers_ok s
+  rw [h] at this
+  exact this
+
+/-- **Every lexer error points at a position inside the source**: the reported line and column are
+    the closed form for a prefix of the source (the start of the construct that is wrong). -/
+theorem lexer_error_position_exact (s : Bytes) (e : LexErr) (h : lex Gen.lexTables s = .err e) :
+    ∃ pre, pre <+: s ∧ (e.line, e.col) = lineCol pre ∧ e.off = pre.length := by
+  have := lex_pos Gen.lexTables gen_tag_tables_ok gen_markers_ok s
+  rw [h] at this
+  exact this
+
+theorem takeWhile_append_of_mem (l m : Bytes) (h : (0x0a : UInt8) ∈ l) :
+    (l ++ m).takeWhile (· ≠ 0x0a) = l.takeWhile (· ≠ 0x0a) := by
+  induction l with
+  | nil => cases h
+  | cons c t ih =>
+    by_cases hc : c = 0x0a
+    · simp [List.takeWhile, hc]
+    · have : (0x0a : UInt8) ∈ t := by
+        rcases List.mem_cons.1 h with h1 | h1
+        · exact absurd h1.symm hc
+        · exact h1
+      simp only [List.cons_append, List.takeWhile, hc, ne_eq, not_false_eq_true, decide_true]
+      rw [ih this]
+
+theorem takeWhile_append_of_all (l m : Bytes) (h : ∀ c ∈ l, c ≠ 0x0a) :
+    (l ++ m).takeWhile (· ≠ 0x0a) = l ++ m.takeWhile (· ≠ 0x0a) := by
+  induction l with
+  | nil => rfl
+  | cons c t ih =>
+    have hc : c ≠ 0x0a := h c List.mem_cons_self
+    simp only [List.cons_append, List.takeWhile, hc, ne_eq, not_false_eq_true, decide_true]
+    rw [ih (fun x hx => h x (List.mem_cons_of_mem _ hx))]
+
+/-- **Inserting text in front shifts a position by exactly the inserted lines and columns**: the
+    line grows by the number of inserted newlines; the column is unchanged if a newline lies between,
+    and grows by the bytes inserted after the last inserted newline otherwise. -/
+theorem insertion_shifts_position (ins pre : Bytes) :
+    (lineCol (ins ++ pre)).1 = (lineCol pre).1 + ins.count 0x0a ∧
+    (lineCol (ins ++ pre)).2 = (if 0x0a ∈ pre then (lineCol pre).2 else (lineCol pre).2 + sinceNewline ins) := by
+  constructor
+  · simp [lineCol, List.count_append]; omega
+  · simp only [lineCol, sinceNewline, List.reverse_append]
+    by_cases h : (0x0a : UInt8) ∈ pre
+    · simp only [h, if_true]
+      rw [takeWhile_append_of_mem _ _ (by simpa using h)]
+    · simp only [h, if_false]
+      rw [takeWhile_append_of_all _ _ (by intro c hc he; subst he; exact h (by simpa using hc))]
+      have h2 : pre.reverse.takeWhile (· ≠ 0x0a) = pre.reverse := by
+        have := takeWhile_append_of_all pre.reverse [] (by intro c hc he; subst he; exact h (by simpa using hc))
+        simpa using this
+      rw [h2]
+      simp; omega
 
 /-- The text loop's incremental bookkeeping equals the closed form, for every
     prefix (any bytes, any number of lines). -/
